@@ -100,6 +100,18 @@ Visits(n) ==
       [] OTHER -> <<>>
 VisitsOf(ch, i) == IF i > Len(ch) THEN <<>> ELSE Visits(ch[i]) \o VisitsOf(ch, i + 1)
 
+\* every template element of a dumped tree, in document order (descending into template contents)
+RECURSIVE TemplatesIn(_), TemplatesOf(_, _)
+TemplatesIn(n) == IF n.k # "el" THEN <<>>
+                  ELSE IF n.tmpl # <<>> THEN <<n>> \o TemplatesOf(n.tmpl[1], 1) ELSE TemplatesOf(n.ch, 1)
+TemplatesOf(ch, i) == IF i > Len(ch) THEN <<>> ELSE TemplatesIn(ch[i]) \o TemplatesOf(ch, i + 1)
+\* serializing a template element on its own: children-only = its contents; include-node = itself around them
+SerOk(e) ==
+    LET ts == TemplatesOf(e.dom.ch, 1) IN
+    /\ e.ser.doc = VisitsOf(e.dom.ch, 1)
+    /\ Len(e.ser.templates) = Len(ts)
+    /\ \A i \in DOMAIN ts : e.ser.templates[i] = <<VisitsOf(ts[i].tmpl[1], 1), Visits(ts[i])>>
+
 Reject(e, why) == PrintT(<<"REJECT", l, e.case, why>>)
 
 Judged(p) == Prop = p \/ Prop = "ALL"
@@ -132,7 +144,7 @@ Step(e) ==
     ELSE IF e.ev = "tree" THEN
         \* after a call outside the contract the abstract DOM is not meaningful (C20 is not judged on that case);
         \* the clauses that only look at the delivered tree still are
-        LET okSer == "ser" \notin DOMAIN e \/ e.dom.k # "doc" \/ e.ser = VisitsOf(e.dom.ch, 1)
+        LET okSer == "ser" \notin DOMAIN e \/ e.dom.k # "doc" \/ SerOk(e)
             okC20 == e.panic # <<>> \/ (okSer /\ (skipping \/ (CanonNode(nodes, 0) = e.dom /\ e.parents_ok /\ LinksConsistent(nodes))))
             okC06 == e.panic # <<>> \/ mode # "doc" \/ Skeleton(e.dom)
             okC04 == e.panic = <<>> /\ e.neof = 1
